@@ -27,6 +27,18 @@ pub fn verif_root() -> PathBuf {
     p.to_path_buf()
 }
 
+/// The path of this executable for spawning child processes. If the binary was replaced on disk while this
+/// process runs (a rebuild during a long batch), Linux reports "<path> (deleted)"; the path itself is used then
+/// (the new binary at the same place understands the same hidden sub-commands).
+pub fn self_exe() -> Result<PathBuf, String> {
+    let exe = std::env::current_exe().map_err(|e| format!("current_exe: {e}"))?;
+    let s = exe.to_string_lossy().to_string();
+    Ok(match s.strip_suffix(" (deleted)") {
+        Some(t) => PathBuf::from(t),
+        None => exe,
+    })
+}
+
 pub fn env_seed() -> u64 {
     std::env::var("VERIF_SEED")
         .ok()
